@@ -1,9 +1,19 @@
 (* C05 -- Policy iteration: evaluation is accurate and termination means policy stability. *)
 From Coq Require Import QArith Qabs List Arith ZArith Bool.
 From MdpaxV Require Import Model.ListUtil Model.QFun Model.MDP Model.Bellman Model.Batching Model.Kernel Model.Solvers
-     Proofs.ContractionP Proofs.LoopP Proofs.C01P Proofs.C01RunP Proofs.C02P Proofs.C05P.
+     Model.KernelOps Proofs.ContractionP Proofs.LoopP Proofs.C01P Proofs.C01RunP Proofs.C02P Proofs.C05P Proofs.GenKernelP.
+From MdpaxGen Require Import GenKernel.
 Import ListNotations.
 Open Scope Q_scope.
+
+(* tie by translation: the evaluation sweep GENERATED from PolicyIteration._calculate_policy_value_state_batch /
+   _calculate_policy_values_scan_state_batches (policy action gathered by state index, two-argument vmap) backs up every
+   state of every batch under that state's own policy action with the generated (= modelled) state-action kernel *)
+Theorem generated_policy_evaluation_sweep : forall (M : mdp) actions events g V pol batches,
+  gen_calculate_policy_values_scan_state_batches (prims_of M) (actions, events, g, V, pol) batches =
+  map (map (fun st => k_state_action_value M st (nth st pol 0%nat) events g V)) batches.
+Proof. exact gen_policy_values_scan_eq. Qed.
+Print Assumptions generated_policy_evaluation_sweep.
 
 (* one evaluation step, for EVERY layout and whatever the padded rows look up *)
 Theorem eval_step_spec : forall (M : mdp) (g : Q) (V : list Q) (n mb d : Z),
